@@ -1,9 +1,17 @@
 pub fn time_millis() -> i64 {
+    #[cfg(feature = "verif")]
+    if let Some(t) = crate::verif::now_micros() {
+        return t / 1000;
+    }
     let time: chrono::DateTime<chrono::Utc> = chrono::Utc::now();
     time.timestamp_millis()
 }
 
 pub fn timestamp() -> i64 {
+    #[cfg(feature = "verif")]
+    if let Some(t) = crate::verif::now_micros() {
+        return t;
+    }
     let time: chrono::DateTime<chrono::Utc> = chrono::Utc::now();
     time.timestamp_micros()
 }
